@@ -19,7 +19,8 @@ FLOORS = {"attempts": 20000, "raised": 15000, "state_checks": 20000}
 FLOORS.update({"class:" + c: 300 for c in CLASSES})
 FLOORS["class:struct-with-other-length"] = 80
 FLOORS["class:struct-one-refused-field"] = 80
-FLOORS.update({"negative_index_assignments": 100, "non_member_from_same_family": 50})
+FLOORS.update({"negative_index_assignments": 100, "non_member_from_same_family": 50, "allocations_after_refusal": 5000,
+               "hybrid_copy_with_contradictory_destination": 300, "refused_construction_at_explicit_offset": 100})
 FLOORS.update({"multibyte_too_long_strings": 300, "misuse_value_as_xobject": 300})
 RULE = ("random type AST x value x placement with a neighbouring xobject; up to 8 misuse attempts per object, each at a "
         "random applicable element position, through handle or view: index outside shape (get/set, negative on "
@@ -97,10 +98,31 @@ def run_case(w, rng):
                 break
             if raised is None:
                 break
+            # after a refused operation the buffer still is a sound allocator: new regions come from free space
+            if rng.random() < 0.5:
+                env.fol.not_free = []
+                env.buf.allocate(rng.choice([8, 24, 64, 200]))
+                env.repoison()
+                w.count("allocations_after_refusal")
+                if env.fol.not_free:
+                    mech = f"allocation-after-refusal-overlaps-live-memory:{cls_}"
+                    if mech not in seen:
+                        seen.add(mech)
+                        w.violation(mech, f"after {desc}: allocate returned {env.fol.not_free} which was not free", info)
+                    break
         w.case([shape_sig(t)], sample=dict(c.info) if rng.random() < 0.003 else None, nontrivial=True)
     finally:
         env.close()
         flush_contracts(w, c.info)
+
+
+_HY = []
+
+
+def _hybrid():
+    if not _HY:
+        _HY.append(type("XvC11Hybrid", (xo.HybridClass,), {"_xofields": {"a": xo.Float64, "b": xo.Int64[:]}}))
+    return _HY[0]
 
 
 def _poskind(path):
@@ -306,6 +328,14 @@ def _plan(cls_, rng, c, allnodes, env):
             set_path(base, p, val)
         return _poskind(p), f"{l} = {d}", fn
     arg = plain(t, c.mv, rng)
+    if cls_ == "wrong-context" and rng.random() < 0.25:
+        other = ctxs()[1].new_buffer(256)
+        hy = _hybrid()(a=1.5, b=[1, 2, 3])
+
+        def fn(base):
+            hy.copy(_context=ctxs()[0], _buffer=other)
+        _W[0].count("hybrid_copy_with_contradictory_destination")
+        return "root", "hybrid.copy(_context=<context A>, _buffer=<buffer of context B>)", fn
     if cls_ == "wrong-context":
         other = ctxs()[1].new_buffer(256)
 
@@ -327,9 +357,18 @@ def _plan(cls_, rng, c, allnodes, env):
         newv = AVal(shape, {i: vg.value(t["it"]) for i in np.ndindex(*shape)})
         newarg = plain(t, newv, rng)
 
+        where = "allocator-chosen offset"
+        kw = dict(_buffer=env.buf)
+        if rng.random() < 0.5:
+            need = max(64, plan_size(t, c.mv) + 64)
+            kw["_offset"] = env.buf.allocate(need) + 8   # inside a block the caller reserved itself
+            env.repoison()
+            where = "explicit offset inside a reserved block"
+            _W[0].count("refused_construction_at_explicit_offset")
+
         def fn(base):
-            c.cls(newarg, _buffer=env.buf)
-        return ar_sig(t), f"T(value of shape {shape}) for static dims {t['dims']}", fn
+            c.cls(newarg, **kw)
+        return ar_sig(t), f"T(value of shape {shape}) for static dims {t['dims']} at {where}", fn
     return None
 
 
